@@ -145,6 +145,11 @@ def resolve_callee(repo, fi, call):
             kind, m, obj = repo.resolve(fi.mod, f.id)
             if kind == 'func' and m is not None and not m.external:
                 return obj, 0
+            if kind == 'class' and m is not None and not m.external:
+                # a constructor call runs the class's __init__ (when the tree defines one)
+                init = repo.find_method(obj, '__init__')
+                if init is not None and not init.mod.external and not init.node.decorator_list:
+                    return init, 1
         elif isinstance(f, ast.Attribute) and isinstance(f.value, ast.Name):
             recv = f.value.id
             ci = None
@@ -429,11 +434,13 @@ class _Taint(object):
         self.sites = []
         self._site_of = {}
         self.reads = []          # (fi, node, kind text or None, detail when bad)
-        self._seen_reads = set()
+        self._seen_reads = {}
         self.n_sources = 0
         self._source_ids = set()
         self._stack = []
         self._cur_fi = None
+        self._classes = {}       # class key -> ClassInfo of the classes of the tree that hold a tagged value in a field
+        self.class_fields = {}   # class key -> {field: tags stored by ``self.<field> = <tagged>``}
 
     def _lookup_site(self, fi, kname, node):
         key = (fi.key, 'lookup', kname)
@@ -449,6 +456,14 @@ class _Taint(object):
             return {('map', 'resources', norm(e.value) in OWNERS)}
         if isinstance(e, ast.Name) and isinstance(e.ctx, ast.Load):
             return set(env.get(e.id, ()))
+        if isinstance(e, ast.Attribute) and isinstance(e.ctx, ast.Load):
+            # a field of an object of the tree in which a sensitive mapping / value was stored
+            out = set()
+            if env or isinstance(e.value, ast.Call):
+                for t in self.tags(e.value, env):
+                    if t[0] == 'obj':
+                        out |= set(ft for f, ft in t[2] if f == e.attr)
+            return out
         if isinstance(e, ast.Subscript) and isinstance(e.ctx, ast.Load) and isinstance(e.slice, ast.Name) and self._cur_fi is not None and \
                 e.slice.id in _local_names(self._cur_fi):
             if any(t[0] == 'map' and t[1] == 'resources' for t in self.tags(e.value, env)):
@@ -472,7 +487,154 @@ class _Taint(object):
                     return set(t for t in a if t[0] in ('items', 'enum'))
                 if f.id == 'enumerate' and not e.keywords:
                     return set(('enum', t[1]) for t in a if t[0] == 'items')
+            ot = self._object_tag(e, env)
+            if ot is not None:
+                return {ot}
         return set()
+
+    # -- objects of the tree that hold a sensitive value in a field -----------------------------------------
+    def _object_tag(self, call, env):
+        """``Cls(.., <tagged>, ..)`` for a class of the tree whose ``__init__`` stores the tagged argument in a field:
+        ('obj', class key, ((field, tag), ...)); None when nothing tagged is stored."""
+        fi = self._cur_fi
+        if fi is None or not isinstance(call.func, ast.Name) or not (call.args or call.keywords):
+            return None
+        if any(isinstance(a, ast.Starred) for a in call.args) or any(k.arg is None for k in call.keywords):
+            return None
+        if not any(self.tags(a, env) for a in list(call.args) + [k.value for k in call.keywords]):
+            return None
+        callee, skip = resolve_callee(self.repo, fi, call)
+        if callee is None or callee.name != '__init__' or skip != 1:
+            return None
+        ci = _class_of(callee)
+        b = bind_args(callee, 1, call)
+        if ci is None or b is None:
+            return None
+        penv = {}
+        for p, x in b.items():
+            ts = set(('val', None, t[2]) if t[0] == 'val' else (('map', t[1], False) if t[0] == 'map' else t) for t in self.tags(x, env))
+            if ts:
+                penv[p] = ts
+        fields = self._fields_stored(callee, penv)
+        if not fields:
+            return None
+        self._classes[ci.key] = ci
+        return ('obj', ci.key, fields)
+
+    def _fields_stored(self, init, penv):
+        me = (init.params() or [None])[0]
+        out = set()
+        prev, self._cur_fi = self._cur_fi, init
+        try:
+            for n in _walk(init):
+                if isinstance(n, (ast.Assign, ast.AnnAssign)) and n.value is not None:
+                    for t in (n.targets if isinstance(n, ast.Assign) else [n.target]):
+                        if isinstance(t, ast.Attribute) and isinstance(t.value, ast.Name) and t.value.id == me:
+                            for tg in self.tags(n.value, penv):
+                                out.add((t.attr, tg))
+        finally:
+            self._cur_fi = prev
+        return tuple(sorted(out, key=lambda x: (x[0], x[1][0], str(x[1][1]), id(x[1][-1]))))
+
+    def _stored_in_field(self, fi, n, tag):
+        """``self.<field> = n`` in a method: the tagged value now lives in the object; every method of the class (and of
+        its subclasses) is judged with that field tagged."""
+        par = fi.mod.parents.get(n)
+        ci = _class_of(fi)
+        me = (fi.params() or [None])[0]
+        if ci is None or me is None or not (isinstance(par, (ast.Assign, ast.AnnAssign)) and par.value is n):
+            return None
+        tgts = par.targets if isinstance(par, ast.Assign) else [par.target]
+        if len(tgts) != 1 or not (isinstance(tgts[0], ast.Attribute) and isinstance(tgts[0].value, ast.Name) and tgts[0].value.id == me):
+            return None
+        if any(norm(d) in ('staticmethod', 'classmethod') for d in fi.node.decorator_list):
+            return None
+        if tag[0] == 'val':
+            tag = ('val', None, tag[2])
+        elif tag[0] == 'map':
+            tag = ('map', tag[1], False)
+        self._classes[ci.key] = ci
+        self.class_fields.setdefault(ci.key, {}).setdefault(tgts[0].attr, set()).add(tag)
+        return tgts[0].attr
+
+    def methods_with_self(self, ci):
+        """The methods that may run on an instance of ``ci``: its own, the inherited ones and those of its subclasses
+        (within the tree); (method, name of the self parameter)."""
+        out, seen = [], set()
+        classes = [c for c in self.repo.mro(ci) if not isinstance(c, str) and not c.mod.external]
+        classes += self.repo.subclasses(ci, [self.mod] if ci.mod is self.mod else None)
+        for c in classes:
+            for m in c.methods.values():
+                if m.key in seen or any(norm(d) in ('staticmethod', 'classmethod') for d in m.node.decorator_list):
+                    continue
+                seen.add(m.key)
+                ps = m.params()
+                if ps:
+                    out.append((m, ps[0]))
+        return out
+
+    def _const_strings(self, fi, e):
+        """The finite set of strings ``e`` may denote: a constant, or a loop variable that runs over (a column of) a
+        constant table (module level / class level); None when unknown."""
+        v = _fold_any(self.repo, fi, e)
+        if isinstance(v, str):
+            return {v}
+        if not isinstance(e, ast.Name) or e.id in fi.params():
+            return None
+        stores = [n for n in ast.walk(fi.node) if isinstance(n, ast.Name) and n.id == e.id and isinstance(n.ctx, (ast.Store, ast.Del))]
+        if len(stores) != 1:
+            return None
+        child, path = stores[0], []
+        par = fi.mod.parents.get(child)
+        while isinstance(par, (ast.Tuple, ast.List)):
+            if any(isinstance(x, ast.Starred) for x in par.elts):
+                return None
+            path.insert(0, [i for i, x in enumerate(par.elts) if x is child][0])
+            child, par = par, fi.mod.parents.get(par)
+        if not (isinstance(par, (ast.For, ast.comprehension)) and par.target is child):
+            return None
+        table = _fold_any(self.repo, fi, par.iter)
+        if not isinstance(table, (tuple, list)):
+            return None
+        out = set()
+        for row in table:
+            for i in path:
+                if not isinstance(row, (tuple, list)) or i >= len(row):
+                    return None
+                row = row[i]
+            if not isinstance(row, str):
+                return None
+            out.add(row)
+        return out
+
+    def _use_of_object(self, fi, n, tag, pending):
+        mod = fi.mod
+        par = mod.parents.get(n)
+        gp = mod.parents.get(par)
+        ci = self._classes.get(tag[1])
+        held = sorted(set(f for f, _ in tag[2]))
+        kind = None
+        if isinstance(par, ast.Attribute) and par.value is n:
+            kind = 'method call / field access on the object (the fields %s are judged where they are read)' % held
+        elif isinstance(par, ast.Call) and isinstance(par.func, ast.Name) and par.func.id in ('getattr', 'hasattr', 'isinstance', 'super', 'id', 'type') and \
+                par.func.id not in _local_names(fi) and par.args and (par.args[0] is n or par.func.id == 'super'):
+            if par.func.id != 'getattr':
+                kind = '%s()' % par.func.id
+            elif len(par.args) >= 2:
+                names = self._const_strings(fi, par.args[1])
+                if names and ci is not None and isinstance(gp, ast.Call) and gp.func is par and \
+                        all(nm not in held and self.repo.find_method(ci, nm) is not None for nm in names):
+                    kind = 'call of one of the methods %s of its class (judged there)' % sorted(names)
+        elif isinstance(par, ast.Compare) and all(isinstance(o, (ast.Is, ast.IsNot)) for o in par.ops):
+            kind = 'identity test'
+        if kind is None and is_aliased(mod, n):
+            kind = 'local alias (judged where it is used)'
+        if kind is None and self._transfer(fi, n, tag, pending):
+            kind = 'argument of a helper of the tree (judged there)'
+        kinds = sorted(set('resource' if t[1] == 'resources' or t[0] == 'val' else 'parameter default' for _, t in tag[2]))
+        self._read(fi, n, kind, None if kind else
+                   '%s lets an object that holds %s *values* in %s escape (%s): its fields can no longer be followed'
+                   % (fi.qualname, ' / '.join(kinds), held, short(par if isinstance(par, ast.AST) else n)))
 
     def is_source(self, e):
         return (isinstance(e, ast.Attribute) and e.attr == 'resources' and isinstance(e.ctx, ast.Load)) or \
@@ -751,6 +913,8 @@ class _Taint(object):
             for t in sorted(ts, key=lambda t: (t[0], str(t[1]))):
                 if t[0] == 'val':
                     self._use_of_value(fi, n, t, pending)
+                elif t[0] == 'obj':
+                    self._use_of_object(fi, n, t, pending)
                 else:
                     self._use_of_mapping(fi, n, t, sites, pending)
         # the redaction marker of each site this function takes part in
@@ -835,15 +999,20 @@ class _Taint(object):
             site.use(fi, n, True)
         elif is_aliased(fi.mod, n) and isinstance(n, (ast.Name, ast.Subscript)):
             site.use(fi, n, True)      # alias: the new name carries the tag, its uses are judged
+        elif isinstance(n, (ast.Name, ast.Subscript)) and self._stored_in_field(fi, n, tag) is not None:
+            site.use(fi, n, True)      # stored in a field of the object: the methods of its class are judged with the field tagged
         elif self._transfer(fi, n, tag, pending):
             site.use(fi, n, True)      # handed to a helper: judged there
         else:
             site.use(fi, n, False)
 
     def _read(self, fi, n, kind, detail=None):
-        if id(n) in self._seen_reads:
+        i = self._seen_reads.get(id(n))
+        if i is not None:
+            if kind is None and self.reads[i][2] is not None:
+                self.reads[i] = (fi, n, kind, detail)      # one node, several tags: the unrecognised use counts
             return
-        self._seen_reads.add(id(n))
+        self._seen_reads[id(n)] = len(self.reads)
         self.reads.append((fi, n, kind, detail))
 
     def _use_of_mapping(self, fi, n, tag, sites, pending):
@@ -907,6 +1076,10 @@ class _Taint(object):
                     kind = 'len()'
         if kind is None and is_aliased(mod, n):
             kind = 'local alias (judged where it is used)'
+        if kind is None:
+            fld = self._stored_in_field(fi, n, tag)
+            if fld is not None:
+                kind = 'stored in the field .%s of the object (judged where the field is read)' % fld
         if kind is None and self._transfer(fi, n, tag, pending):
             kind = 'argument of a helper of meta.py (judged there)'
         self._read(fi, n, kind, None if kind else
@@ -1079,6 +1252,21 @@ def _r18a(rep, repo, meta):
     tn = _Taint(repo, meta)
     for fi in list(meta.functions.values()) + _toplevel_lambdas(meta):
         tn.scan(fi, {})
+    # objects of the tree in whose fields a sensitive mapping / value was stored: every method that may run on such an
+    # object is judged with the field tagged
+    judged = {}
+    for _ in range(4):
+        todo = []
+        for ck, fields in sorted(tn.class_fields.items()):
+            flat = tuple(sorted(((f, t) for f, ts in fields.items() for t in ts), key=lambda x: (x[0], x[1][0], str(x[1][1]), id(x[1][-1]))))
+            if judged.get(ck) != flat:
+                judged[ck] = flat
+                todo.append((ck, flat))
+        if not todo:
+            break
+        for ck, flat in todo:
+            for m, me in tn.methods_with_self(tn._classes[ck]):
+                tn.scan(m, {me: {('obj', ck, flat)}})
     n_res = sum(1 for fi, n, _, _ in tn.reads if isinstance(n, ast.Attribute) and n.attr == 'resources')
     if n_res < 3:
         raise AnalysisError('meta.py: only %d reads of .resources found (floor 3)' % n_res)
